@@ -353,3 +353,37 @@ def backmap_flagged(sx, B):
                              lambda: "molecule %d atom %r: %r expected %r" % (mi, a, p, want))
                 else:
                     sx.claim(p is before[(mi, a)], "atoms of residues not flagged for backmapping keep the identical position")
+
+
+
+import harness.C17 as _c17      # noqa: E402
+
+
+@condition("C04.rewind_supplied",
+           anchors=["polyply.src.random_walk:RandomWalk._random_walk", "polyply.src.random_walk:RandomWalk._rewind",
+                    "polyply.src.build_system:BuildSystem._handle_random_walk"],
+           rejects=(), must_cover=["rewound", "abandoned", "finished"], cfg={"path_timeout_s": 20},
+           stubs=["as C17.rewind"],
+           bounds={"quick": dict(shapes=["path5", "comb5"], calls=7, nrewind=(2, 3), rw_maxiter=(2,), all_subsets=False, attempts=1),
+                   "thorough": dict(shapes=["path5", "path6", "comb5", "ring5"], calls=9, nrewind=(2, 4), rw_maxiter=(2, 3), all_subsets=True, attempts=2)},
+           budget={"quick": 200, "thorough": 900})
+def rewind_supplied(sx, B):
+    """A failed placement attempt never alters or discards supplied coordinates - also when the supplied residue lies between built
+    residues inside the rewind window: the C17 harness (real run_system under every failure schedule and rewind depth) on chains with
+    supplied residues in every position, with its claims 'supplied residue keeps its position' after every step and at the end."""
+    _c17.rewind(sx, B)
+
+
+import harness.C03 as _c03      # noqa: E402
+
+
+@condition("C04.end_to_end",
+           anchors=["polyply.src.gen_coords:gen_coords", "polyply.src.topology:Topology.add_positions_from_file"],
+           rejects=(), selector_only=True, must_cover=["structure", "meta coordinates"],
+           stubs=["none: the real gen_coords runs end to end with real files"], cfg={"path_timeout_s": 300},
+           outside=["systems larger than the 4-molecule test system"],
+           bounds={"quick": dict(), "thorough": dict()}, budget={"quick": 280, "thorough": 900})
+def end_to_end(sx, B):
+    """The real gen_coords end to end (the C03.end_to_end harness): supplied atom coordinates are written unchanged, residues given
+    as centres are backmapped around exactly those centres, also in combination with -res, a build file, -grid and -start."""
+    _c03.end_to_end(sx, B)
